@@ -147,6 +147,33 @@ static void trychurn (int n) {
 	pthread_join (a, NULL); pthread_join (b, NULL);
 	if (do_call (16, 1, "wtry")) do_call (16, 1, "wunlock");
 }
+/* a trylock that meets the END of a critical section (not logged): in every round one thread locks, stays inside for some microseconds and unlocks once,
+ * while another calls trylock all the time (releasing when it got the lock) until the first is done.  Afterwards, with both at rest, the lock is free
+ * and uncontended: a trylock must succeed.  If it does not, that is a TryRefused event which no spec action explains. */
+static volatile int te_phase, te_done; static int te_rounds;
+static void *tryend_holder (void *arg) {
+	int r; (void) arg;
+	for (r = 1; r <= te_rounds; r++) {
+		volatile int w;
+		while (__atomic_load_n (&te_phase, __ATOMIC_SEQ_CST) < r) ;
+		raw_lock (); for (w = 0; w < 2000; w++) ; raw_unlock ();
+		__atomic_store_n (&te_done, r, __ATOMIC_SEQ_CST);
+	}
+	return NULL;
+}
+static void tryend (int rounds) {
+	pthread_t h; int r, refused = 0;
+	{ cpu_set_t all; int c = 1; if (sched_getaffinity (0, sizeof all, &all) == 0) c = CPU_COUNT (&all); if (c < 2) return; }
+	te_rounds = rounds; te_phase = 0; te_done = 0;
+	pthread_create (&h, NULL, tryend_holder, NULL);
+	for (r = 1; r <= rounds && !refused; r++) {
+		__atomic_store_n (&te_phase, r, __ATOMIC_SEQ_CST);
+		while (__atomic_load_n (&te_done, __ATOMIC_SEQ_CST) < r) if (raw_try ()) raw_unlock ();
+		if (raw_try ()) raw_unlock (); else { int again = 0, k; for (k = 0; k < 20 && !again; k++) again = raw_try (); if (again) raw_unlock (); else refused = 1; }
+	}
+	if (refused) { VTM ("\"e\":\"TryRefused\",\"t\":16,\"o\":1"); te_rounds = 0; __atomic_store_n (&te_phase, rounds + 1, __ATOMIC_SEQ_CST); }
+	if (!refused) pthread_join (h, NULL); else pthread_detach (h);
+}
 /* mutual exclusion without the event log in the way (taking event numbers around every call keeps the calls microseconds apart): six threads
  * take the lock - three with the blocking call, three by retrying trylock - and count how many are inside; two inside at once is an Overlap event that
  * no spec action explains.  A second lock object is hammered by the same threads in alternation, so that whatever the implementation shares
@@ -245,7 +272,7 @@ int main (int argc, char **argv) {
 		vtm_barrier ();
 	}
 	for (i = 1; i <= nth; i++) pthread_join (th[i], NULL);
-	if (nth <= 14) { tryhold (); tryrace (100000); trychurn (300000); exclchurn (100000); if (kind[0] == 'r') sharehold (); }
+	if (nth <= 14) { tryhold (); tryrace (100000); trychurn (300000); tryend (3000); exclchurn (100000); if (kind[0] == 'r') sharehold (); }
 	VTM ("\"e\":\"Epoch\"");
 	for (i = 1; i <= nobj; i++) { if (mx[i]) p_mutex_free (mx[i]); if (sp[i]) p_spinlock_free (sp[i]); if (rw[i]) p_rwlock_free (rw[i]); }
 	vtm_close ();
